@@ -73,6 +73,7 @@ def rule_remove(R):
                  "retained removal in the inbound handler must sit in exactly one of the arms %s and take the packet "
                  "identifier of that very packet (found arm %s, id = %s)" % (list(ACK_ARMS), arms, show(idt)), where=c.span)
     R.exact("remove/caller", ncall, 4, "call sites of the retained removal")
+    outq.clause_removal_index(R, "remove/removes-the-acknowledged-entry", rem, "retained")
 
     # clear() only from the session reset; reset only from the handshake on session_present == false
     rst = outq.session_reset(f)
@@ -303,8 +304,16 @@ def rule_replay(R):
          where=ccode.span)
 
 
+def rule_arena(R):
+    """what is retransmitted is what was accepted: every mutable view of the arena handed out after a packet was retained
+    starts behind all retained bytes (`buf[used..]` after a dominating compact) -- shared with C17"""
+    from .c17 import rule_base as _r
+    _r(R)
+
+
 def run(R):
     R.rule("replay", rule_replay)
+    R.rule("arena", rule_arena)
     R.rule("enq", rule_enq)
     R.rule("remove", rule_remove)
     R.rule("once", rule_once)
